@@ -262,6 +262,8 @@ spiftool_substr(spif_charptr_t str, spif_int32_t idx, spif_int32_t cnt)
 
     if (cnt <= 0) {
         char_count = len - start_pos + cnt;
+        /* More characters dropped than there are: the sum wrapped around. */
+        REQUIRE_RVAL(char_count <= len - start_pos, (spif_charptr_t) NULL);
     } else {
         char_count = cnt;
     }
